@@ -25,6 +25,10 @@ def scenarios(tier, seed):
     for b in bases:
         for i, ports in enumerate(profs if tier == "thorough" else profs[:2]):
             out.append(scenario("%s-p%d" % (b, i), b, ports, seed * 131 + i, tech=dict(tREFI=1800 + 37 * i)))
+    # four-activate window binding (tFAW > 4 x tRRD in controller cycles): activates to many banks in quick succession
+    faw = [dict(profile="pingpong", ncmd=n, gap=0, seed=j) for j in range(3)]
+    for b in (["DDR3"] if tier == "quick" else ["DDR3", "DDR3_half", "DDR4", "DDR2"]):
+        out.append(scenario("%s-faw" % b, b, faw, seed * 5 + 2, tech=dict(tREFI=2000, tRRD=[4, 2.5]), speed=dict(tFAW=[None, 50])))
     # the schedule named in the property: a row opened just before the refresh request. A port issues one row-miss command every
     # (tREFI - 3) cycles, so the distance between its ACT and the refresher's precharge-all slides through every offset.
     for b, refi_ns, clk in ([("SDR166", 1200, 166000), ("DDR3_200", 1000, 200000)] if tier == "quick" else
